@@ -38,7 +38,7 @@ ASSUMPTIONS = [
     'opacity data are installed before the chemistry object is built (availability is read at construction)',
     'trace totals within 4 eps*k of one (but not exactly one) are counted, not judged',
 ]
-_Q = {'mixture': 260, 'gas': 700, 'model': 25}
+_Q = {'mixture': 180, 'gas': 500, 'model': 20}
 _T = {'mixture': 2600, 'gas': 7000, 'model': 250}
 BUDGET = {
     'quick': [dict(name='main', env={}, shards=8, cases=_Q)],
